@@ -58,14 +58,17 @@ META = {
         "MortarGrid.update_* during a replacement."),
     "rule_text": "one obligation per (dict access | mutation event x pair | selection loop clause | re-key arm | "
                  "listing/sort clause | validation raise)",
-    "trusted_base": ["python ast", "sa.core (loader, astutil, cfg)", "dict semantics: d[k] / del d[k] raise KeyError iff k absent"],
+    "trusted_base": ["python ast", "sa.core (loader, astutil, cfg)", "dict semantics: d[k] / del d[k] raise KeyError iff k absent",
+                     "normalisation pre-pass (behaviour-preserving): aliases of the five dicts, dict.update({..}) -> item stores, "
+                     "list comprehension -> loop, `if c: continue/return` + rest -> `if not c: rest`, statement calls to mutating "
+                     "methods of the class inlined into the caller"],
     "assumptions": ["the five dicts are mutated only inside MixedDimensionalGrid (thorough tier sweeps src/porepy for "
                     "outside subscript stores/deletes)",
                     "Grid.dim is an int in 0..3 and Grid.id is unique and increasing with creation",
                     "methods interfaces()/subdomains()/boundaries()/subdomain_to_interfaces() return present keys (checked by R3/R5)"],
     "technique": "dict typestate over a statement CFG (dominance/post-dominance, reaching definitions) + shape rules for the sort key",
 }
-MIN_INSTANCES = {"R1": 8, "R2": 18, "R3": 6, "R4": 8, "R5": 22, "R6": 5, "R7": 2}
+MIN_INSTANCES = {"R1": 6, "R2": 16, "R3": 6, "R4": 8, "R5": 20, "R6": 5, "R7": 1}
 
 
 # ---------------------------------------------------------------------------------------
@@ -364,7 +367,7 @@ def _safe_reason(fi: FnInfo, e: Ev) -> Optional[str]:
     # key is a value read from the sd->bg map (pair invariant: its values are the keys of _boundary_grid_data)
     if e.d == BG_DATA:
         vals = [e.key] if not isinstance(e.key, ast.Name) else fi.value_defs(e.key.id, e.stmt)
-        if vals and all(isinstance(v, ast.Subscript) and _self_dict(v.value) == SD_BG for v in vals):
+        if vals and all(_reads_map(v, SD_BG) is not None for v in vals):
             return "key read from _subdomain_to_boundary_grid"
     # dominated by an earlier successful access with the same key
     me = fi.node(e.stmt)
@@ -384,6 +387,16 @@ def _safe_reason(fi: FnInfo, e: Ev) -> Optional[str]:
     return None
 
 
+def _reads_map(v: ast.AST, d: str) -> Optional[str]:
+    """key text k if v is self.d[k] or self.d.pop(k) (both yield the stored value), else None."""
+    if isinstance(v, ast.Subscript) and _self_dict(v.value) == d:
+        return u(v.slice)
+    if isinstance(v, ast.Call) and isinstance(v.func, ast.Attribute) and v.func.attr == "pop" and _self_dict(v.func.value) == d \
+            and len(v.args) == 1:
+        return u(v.args[0])
+    return None
+
+
 def _names_stable(fi: FnInfo, expr: ast.AST, a: ast.stmt, b: ast.stmt) -> bool:
     """No name of expr is re-assigned on a path a -> b that stays within one iteration of the loops
     enclosing both."""
@@ -397,6 +410,279 @@ def _names_stable(fi: FnInfo, expr: ast.AST, a: ast.stmt, b: ast.stmt) -> bool:
             if fi.cfg.reachable(an, dn, avoid) and fi.cfg.reachable(dn, bn, avoid):
                 return False
     return True
+
+
+# ---------------------------------------------------------------------------------------
+# normalisation: behaviour-preserving rewrites of a method body into the forms the rules read
+# ---------------------------------------------------------------------------------------
+
+_NEG = {ast.In: ast.NotIn, ast.NotIn: ast.In, ast.Eq: ast.NotEq, ast.NotEq: ast.Eq, ast.Is: ast.IsNot,
+        ast.IsNot: ast.Is, ast.Lt: ast.GtE, ast.GtE: ast.Lt, ast.Gt: ast.LtE, ast.LtE: ast.Gt}
+
+
+def _negate(t: ast.expr) -> ast.expr:
+    if isinstance(t, ast.UnaryOp) and isinstance(t.op, ast.Not):
+        return t.operand
+    if isinstance(t, ast.Compare) and len(t.ops) == 1 and type(t.ops[0]) in _NEG:
+        return ast.copy_location(ast.Compare(left=t.left, ops=[_NEG[type(t.ops[0])]()], comparators=t.comparators), t)
+    if isinstance(t, ast.BoolOp):
+        op = ast.Or() if isinstance(t.op, ast.And) else ast.And()
+        return ast.copy_location(ast.BoolOp(op=op, values=[_negate(v) for v in t.values]), t)
+    return ast.copy_location(ast.UnaryOp(op=ast.Not(), operand=t), t)
+
+
+def _simplify_not(t: ast.expr) -> ast.expr:
+    if isinstance(t, ast.UnaryOp) and isinstance(t.op, ast.Not):
+        inner = t.operand
+        if isinstance(inner, (ast.Compare, ast.BoolOp)) or (isinstance(inner, ast.UnaryOp) and isinstance(inner.op, ast.Not)):
+            return _simplify_not(_negate(inner)) if not isinstance(inner, ast.BoolOp) else _negate(inner)
+    return t
+
+
+def _norm_block(block: list[ast.stmt], exit_kind) -> list[ast.stmt]:
+    """`if C: <exit>` followed by REST  ==>  `if not C: REST`   (exit = continue in a loop body, bare return in
+    the function's own body: in both cases REST is all that remains of the block)."""
+    out: list[ast.stmt] = []
+    for i, s in enumerate(block):
+        _norm_stmt(s, exit_kind)
+        if isinstance(s, ast.If) and not s.orelse and len(s.body) == 1 and exit_kind is not None \
+                and isinstance(s.body[0], exit_kind) and getattr(s.body[0], "value", None) is None and block[i + 1:]:
+            rest = _norm_block(block[i + 1:], exit_kind)
+            new = ast.copy_location(ast.If(test=_negate(s.test), body=rest, orelse=[]), s)
+            out.append(new)
+            return out
+        if isinstance(s, ast.If):
+            s.test = _simplify_not(s.test)
+        out.append(s)
+    return out
+
+
+def _norm_stmt(s: ast.stmt, exit_kind) -> None:
+    if isinstance(s, (ast.For, ast.While)):
+        s.body = _norm_block(s.body, ast.Continue)
+        s.orelse = _norm_block(s.orelse, None) if s.orelse else s.orelse
+    elif isinstance(s, ast.If):
+        s.body = _norm_block(s.body, None)
+        s.orelse = _norm_block(s.orelse, None) if s.orelse else s.orelse
+    elif isinstance(s, ast.With):
+        s.body = _norm_block(s.body, None)
+    elif isinstance(s, ast.Try):
+        s.body = _norm_block(s.body, None)
+        for h in s.handlers:
+            h.body = _norm_block(h.body, None)
+
+
+class _Rewrite(ast.NodeTransformer):
+    """dict.update({k: v}) -> item stores; `L = [e for t in IT if C]` -> explicit loop; aliases of the five dicts."""
+
+    def __init__(self, aliases: dict[str, str]):
+        self.aliases = aliases
+
+    def visit_Name(self, n: ast.Name):
+        if n.id in self.aliases and isinstance(n.ctx, ast.Load):
+            return ast.copy_location(ast.Attribute(value=ast.Name(id="self", ctx=ast.Load()), attr=self.aliases[n.id],
+                                                   ctx=ast.Load()), n)
+        return n
+
+    def visit_FunctionDef(self, n):
+        if getattr(self, "_root", None) is None:
+            self._root = n
+            self.generic_visit(n)
+            n.body = self._flatten(n.body)
+            return n
+        return n  # nested defs untouched
+
+    def _flatten(self, block):
+        out = []
+        for s in block:
+            if isinstance(s, list):
+                out += s
+            else:
+                for fld in ("body", "orelse", "finalbody"):
+                    b = getattr(s, fld, None)
+                    if isinstance(b, list) and b and isinstance(b[0], (ast.stmt, list)):
+                        setattr(s, fld, self._flatten(b))
+                for h in getattr(s, "handlers", []):
+                    h.body = self._flatten(h.body)
+                out.append(s)
+        return out
+
+    def visit_Expr(self, s: ast.Expr):
+        self.generic_visit(s)
+        c = s.value
+        if isinstance(c, ast.Call) and isinstance(c.func, ast.Attribute) and c.func.attr == "update" \
+                and _self_dict(c.func.value) and len(c.args) == 1 and not c.keywords:
+            a = c.args[0]
+            tgt = lambda k: ast.Subscript(value=c.func.value, slice=k, ctx=ast.Store())
+            if isinstance(a, ast.Dict) and all(k is not None for k in a.keys):
+                return [ast.fix_missing_locations(ast.copy_location(ast.Assign(targets=[tgt(k)], value=v), s))
+                        for k, v in zip(a.keys, a.values)]
+            if isinstance(a, ast.DictComp) and len(a.generators) == 1 and not a.generators[0].is_async:
+                g = a.generators[0]
+                body: list[ast.stmt] = [ast.Assign(targets=[tgt(a.key)], value=a.value)]
+                if g.ifs:
+                    body = [ast.If(test=g.ifs[0] if len(g.ifs) == 1 else ast.BoolOp(op=ast.And(), values=g.ifs),
+                                   body=body, orelse=[])]
+                loop = ast.For(target=g.target, iter=g.iter, body=body, orelse=[])
+                return [ast.fix_missing_locations(ast.copy_location(loop, s))]
+        return s
+
+    def _comp_to_loop(self, s, target: ast.Name, comp: ast.ListComp):
+        g = comp.generators[0]
+        app = ast.Expr(value=ast.Call(func=ast.Attribute(value=ast.Name(id=target.id, ctx=ast.Load()), attr="append",
+                                                         ctx=ast.Load()), args=[comp.elt], keywords=[]))
+        body: list[ast.stmt] = [app]
+        if g.ifs:
+            body = [ast.If(test=g.ifs[0] if len(g.ifs) == 1 else ast.BoolOp(op=ast.And(), values=g.ifs), body=body, orelse=[])]
+        init = ast.Assign(targets=[ast.Name(id=target.id, ctx=ast.Store())], value=ast.List(elts=[], ctx=ast.Load()))
+        loop = ast.For(target=g.target, iter=g.iter, body=body, orelse=[])
+        return [ast.fix_missing_locations(ast.copy_location(init, s)), ast.fix_missing_locations(ast.copy_location(loop, s))]
+
+    def visit_Assign(self, s: ast.Assign):
+        self.generic_visit(s)
+        if len(s.targets) == 1 and isinstance(s.targets[0], ast.Name) and isinstance(s.value, ast.ListComp) \
+                and len(s.value.generators) == 1 and s.targets[0].id not in names_in(s.value) \
+                and "self" in names_in(s.value):
+            return self._comp_to_loop(s, s.targets[0], s.value)
+        return s
+
+    def visit_AnnAssign(self, s: ast.AnnAssign):
+        self.generic_visit(s)
+        if isinstance(s.target, ast.Name) and isinstance(s.value, ast.ListComp) and len(s.value.generators) == 1 \
+                and s.target.id not in names_in(s.value) and "self" in names_in(s.value):
+            return self._comp_to_loop(s, s.target, s.value)
+        return s
+
+
+def _dict_aliases(fn: ast.FunctionDef) -> dict[str, str]:
+    cand: dict[str, list] = {}
+    for s in stmts_local(fn):
+        for t in assigned_targets(s):
+            if isinstance(t, ast.Name):
+                v = s.value if isinstance(s, (ast.Assign, ast.AnnAssign)) and len(assigned_targets(s)) == 1 else None
+                cand.setdefault(t.id, []).append(v)
+    return {n: _self_dict(vs[0]) for n, vs in cand.items() if len(vs) == 1 and vs[0] is not None and _self_dict(vs[0])}
+
+
+def _mutates(fn: ast.FunctionDef) -> bool:
+    for n in walk_local(fn):
+        if isinstance(n, ast.Subscript) and _self_dict(n.value) and isinstance(n.ctx, (ast.Store, ast.Del)):
+            return True
+        if isinstance(n, ast.Call) and isinstance(n.func, ast.Attribute) and _self_dict(n.func.value) \
+                and n.func.attr in ("pop", "update", "clear", "setdefault", "popitem"):
+            return True
+    return False
+
+
+class _Subst(ast.NodeTransformer):
+    def __init__(self, mapping: dict[str, ast.expr], rename: dict[str, str]):
+        self.mapping, self.rename = mapping, rename
+
+    def visit_Name(self, n: ast.Name):
+        import copy
+        if n.id in self.rename:
+            return ast.copy_location(ast.Name(id=self.rename[n.id], ctx=n.ctx), n)
+        if n.id in self.mapping and isinstance(n.ctx, ast.Load):
+            return ast.copy_location(copy.deepcopy(self.mapping[n.id]), n)
+        return n
+
+
+def _inline_calls(fn: ast.FunctionDef, meths: dict[str, ast.FunctionDef], inlined: set[str], depth: int = 0) -> None:
+    """Replace statement calls `self.<m>(...)` to mutating methods of the class by the (normalised) body of m."""
+    import copy
+    counter = [0]
+
+    def expand(block: list[ast.stmt]) -> list[ast.stmt]:
+        out: list[ast.stmt] = []
+        for s in block:
+            for fld in ("body", "orelse", "finalbody"):
+                b = getattr(s, fld, None)
+                if isinstance(b, list) and b and isinstance(b[0], ast.stmt) and not isinstance(s, (ast.FunctionDef, ast.ClassDef)):
+                    setattr(s, fld, expand(b))
+            for h in getattr(s, "handlers", []):
+                h.body = expand(h.body)
+            c = s.value if isinstance(s, ast.Expr) else None
+            if isinstance(c, ast.Call) and isinstance(c.func, ast.Attribute) and u(c.func.value) == "self" \
+                    and c.func.attr in meths and c.func.attr != fn.name and _mutates_deep(meths[c.func.attr], meths):
+                callee = meths[c.func.attr]
+                if depth >= 2 or callee.args.vararg or callee.args.kwarg or any(isinstance(a, ast.Starred) for a in c.args):
+                    raise Undecided(f"{MD}:{fn.name}: call to mutating helper {callee.name} cannot be inlined")
+                body = [b for b in callee.body if not (isinstance(b, ast.Expr) and isinstance(b.value, ast.Constant))]
+                if body and isinstance(body[-1], ast.Return) and body[-1].value is None:
+                    body = body[:-1]
+                if any(isinstance(n, ast.Return) for b in body for n in walk_local(b)):
+                    raise Undecided(f"{MD}:{fn.name}: mutating helper {callee.name} returns from inside its body")
+                params = [a.arg for a in callee.args.args if a.arg != "self"]
+                defaults = callee.args.defaults
+                dmap = {p: d for p, d in zip(params[len(params) - len(defaults):], defaults)} if defaults else {}
+                mapping: dict[str, ast.expr] = dict(dmap)
+                for pn, a in zip(params, c.args):
+                    mapping[pn] = a
+                for k in c.keywords:
+                    if k.arg is None:
+                        raise Undecided(f"{MD}:{fn.name}: **kwargs in call to {callee.name}")
+                    mapping[k.arg] = k.value
+                if set(params) - set(mapping):
+                    raise Undecided(f"{MD}:{fn.name}: cannot bind arguments of {callee.name}")
+                counter[0] += 1
+                local = {t.id for b in body for st in [b] + list(stmts_local(b)) for t in assigned_targets(st)
+                         if isinstance(t, ast.Name)} - set(params)
+                # a parameter re-bound inside the helper becomes a local of the inlined copy
+                rebound = {t.id for b in body for st in [b] + list(stmts_local(b)) for t in assigned_targets(st)
+                           if isinstance(t, ast.Name)} & set(params)
+                pre: list[ast.stmt] = []
+                rename = {n: f"_inl{counter[0]}_{n}" for n in local | rebound}
+                for pn in rebound:
+                    pre.append(ast.Assign(targets=[ast.Name(id=rename[pn], ctx=ast.Store())], value=copy.deepcopy(mapping[pn])))
+                    mapping.pop(pn)
+                new = [_Subst(mapping, rename).visit(copy.deepcopy(b)) for b in body]
+                for b in pre + new:
+                    ast.copy_location(b, s)
+                    for n in ast.walk(b):
+                        if not hasattr(n, "lineno") or True:
+                            n.lineno = getattr(s, "lineno", 0)
+                            n.end_lineno = getattr(s, "end_lineno", 0)
+                            n.col_offset = getattr(s, "col_offset", 0)
+                            n.end_col_offset = getattr(s, "end_col_offset", 0)
+                inlined.add(callee.name)
+                out += pre + new
+                continue
+            out.append(s)
+        return out
+
+    fn.body = expand(fn.body)
+
+
+def _mutates_deep(fn: ast.FunctionDef, meths: dict, seen=()) -> bool:
+    if _mutates(fn):
+        return True
+    for c in walk_local(fn):
+        if isinstance(c, ast.Call) and isinstance(c.func, ast.Attribute) and u(c.func.value) == "self" \
+                and c.func.attr in meths and c.func.attr not in seen and c.func.attr != fn.name:
+            if _mutates_deep(meths[c.func.attr], meths, seen + (fn.name,)):
+                return True
+    return False
+
+
+def _normalise_methods(meths: dict[str, ast.FunctionDef]) -> tuple[dict[str, ast.FunctionDef], set[str]]:
+    import copy
+    out: dict[str, ast.FunctionDef] = {}
+    for name, fn in meths.items():
+        f2 = copy.deepcopy(fn)
+        f2 = _Rewrite(_dict_aliases(f2)).visit(f2)
+        ast.fix_missing_locations(f2)
+        f2.body = _norm_block(f2.body, ast.Return)
+        out[name] = f2
+    inlined: set[str] = set()
+    # callees first (two rounds are enough for helpers calling helpers)
+    for _ in range(2):
+        for name, fn in out.items():
+            _inline_calls(fn, out, inlined)
+    for fn in out.values():
+        fn.body = _norm_block(fn.body, ast.Return)
+        ast.fix_missing_locations(fn)
+    return out, inlined
+
 
 
 # ---------------------------------------------------------------------------------------
@@ -578,10 +864,12 @@ def _value_related(fi: FnInfo, ea: Ev, eb: Ev) -> bool:
         if not vals:
             return False
         for v in vals:
-            if not (isinstance(v, ast.Subscript) and _self_dict(v.value) == SD_BG and u(v.slice) == u(ea.key)):
+            if _reads_map(v, SD_BG) != u(ea.key):
                 return False
         defs, _ = fi.reaching(eb.key.id, eb.stmt)
-        return all(fi.dominates(fi.node(d), fi.node(ea.stmt)) and fi.node(d) != fi.node(ea.stmt) for d in defs)
+        # the value is read before the mapping entry disappears (or by the very pop that removes it)
+        return all(fi.dominates(fi.node(d), fi.node(ea.stmt)) and (fi.node(d) != fi.node(ea.stmt) or isinstance(ea.node, ast.Call))
+                   for d in defs)
     if isinstance(eb.key, ast.Subscript) and _self_dict(eb.key.value) == SD_BG and u(eb.key.slice) == u(ea.key):
         return fi.dominates(fi.node(eb.stmt), fi.node(ea.stmt)) and fi.node(eb.stmt) != fi.node(ea.stmt)
     return False
@@ -620,9 +908,11 @@ def _selection_loops(fi: FnInfo):
                 if isinstance(v, ast.Call) and u(v.func) == "self.interface_to_subdomain_pair" and \
                         [u(a) for a in v.args] == [ivar]:
                     pair_names.add(s.targets[0].id)
-        if not pair_names:
-            continue
+        # the pair may also be written inline
+        pair_names |= {f"self.{IF_SD}[{ivar}]", f"self.interface_to_subdomain_pair({ivar})"}
         for iff in [s for s in loop.body if isinstance(s, ast.If)]:
+            if not any(u(n) in pair_names for n in ast.walk(iff.test)):
+                continue
             apps = [c for st in iff.body for c in ast.walk(st) if isinstance(c, ast.Call) and call_name(c) == "append"
                     and len(c.args) == 1 and u(c.args[0]) == ivar and isinstance(c.func.value, ast.Name)]
             if apps and not iff.orelse:
@@ -640,15 +930,14 @@ def _pair_test(test: ast.expr, pair_names: set[str], params: set[str]):
         if not (isinstance(v, ast.Compare) and len(v.ops) == 1):
             return None
         l, r, op = v.left, v.comparators[0], v.ops[0]
-        if isinstance(op, ast.In) and isinstance(l, ast.Name) and l.id in params and isinstance(r, ast.Name) \
-                and r.id in pair_names:
+        if isinstance(op, ast.In) and isinstance(l, ast.Name) and l.id in params and u(r) in pair_names:
             idx |= {0, 1}
             who.add(l.id)
             continue
         if not isinstance(op, (ast.Eq, ast.Is)):
             return None
         for a, b in ((l, r), (r, l)):
-            if isinstance(a, ast.Subscript) and isinstance(a.value, ast.Name) and a.value.id in pair_names \
+            if isinstance(a, ast.Subscript) and u(a.value) in pair_names \
                     and isinstance(a.slice, ast.Constant) and a.slice.value in (0, 1) \
                     and isinstance(b, ast.Name) and b.id in params:
                 idx.add(a.slice.value)
@@ -667,10 +956,29 @@ def _r3(ctx: Ctx, mod, infos: dict[str, FnInfo]) -> None:
         if fi is None:
             raise AnchorError(f"{MD}:{CLS}.{name} missing")
         sels = _selection_loops(fi)
+        q = f"{CLS}.{name}"
+        if not sels and name == "remove_subdomain":
+            # delegation: the interfaces of `sd` are obtained from subdomain_to_interfaces(sd), itself checked below
+            params0 = [a.arg for a in fi.fn.args.args if a.arg != "self"]
+            dele = [(kl, e) for e in fi.mutations() if e.op == "del" and e.d in (IF_DATA, IF_SD)
+                    for kl in [fi.key_loop(e)] if kl is not None]
+            srcs = []
+            for kl, e in dele:
+                vals = fi.resolve(kl.iter, kl) or [kl.iter]
+                srcs.append(all(isinstance(v, ast.Call) and u(v.func) == "self.subdomain_to_interfaces"
+                                and [u(a) for a in v.args] == params0[:1] for v in vals))
+            if dele and all(srcs):
+                for what in ("source", "predicate"):
+                    ctx.check("R3", True, mod, q, dele[0][0], f"selection {what} delegated to subdomain_to_interfaces({params0[0]})",
+                              construct=f"selection {what}: subdomain_to_interfaces({params0[0]})")
+                ok = {e.d for _, e in dele} == {IF_DATA, IF_SD} and all(_every_iteration(fi, kl, e.stmt) for kl, e in dele)
+                ctx.check("R3", ok, mod, q, dele[0][0],
+                          "every selected interface must be deleted from _interface_data and _interface_to_subdomains",
+                          construct="delete all selected interfaces")
+                continue
         if len(sels) != 1:
             raise Undecided(f"{MD}:{CLS}.{name}: expected one interface selection loop, found {len(sels)}")
         loop, ivar, pair_names, iff, lst, params = sels[0]
-        q = f"{CLS}.{name}"
         # (a) source covers all interfaces
         it = loop.iter
         src_ok: Optional[bool] = None
@@ -735,13 +1043,9 @@ def _r4(ctx: Ctx, mod, infos: dict[str, FnInfo]) -> None:
         ctx.check("R4", False, mod, f"{CLS}.add_interface", fi.fn,
                   "add_interface never records the subdomain pair of the new interface", construct="store of the sorted pair missing")
     for e in stores:
-        vals = [e.value] if not isinstance(e.value, ast.Name) else fi.value_defs(e.value.id, e.stmt)
+        vals = fi.resolve(e.value, e.stmt, depth=5)
         if vals is None:
-            defs, entry = fi.reaching(e.value.id, e.stmt)
-            if entry and not defs:
-                vals = []  # the raw parameter
-            else:
-                vals = [d.value if isinstance(d, ast.Assign) else None for d in defs] + ([None] if entry else [])
+            vals = [None]
         ok = bool(vals) and all(v is not None and isinstance(v, ast.Call) and u(v.func) == "self.sort_subdomain_tuple"
                                 for v in vals)
         ctx.check("R4", ok, mod, e.q, e.node,
@@ -781,7 +1085,7 @@ def _r4(ctx: Ctx, mod, infos: dict[str, FnInfo]) -> None:
     new, old = u(sd_st[0].key), u(sd_del[0].key)
     # data transfer
     vals = fi.resolve(sd_st[0].value, sd_st[0].stmt) or []
-    ok = bool(vals) and all(isinstance(x, ast.Subscript) and _self_dict(x.value) == SD and u(x.slice) == old for x in vals)
+    ok = bool(vals) and all(_reads_map(x, SD) == old for x in vals)
     ctx.check("R4", ok, mod, q, sd_st[0].node,
               f"the data dictionary of the replaced subdomain must be re-keyed: self.{SD}[{new}] = self.{SD}[{old}]",
               construct=f"store self.{SD}[{new}] = data of {old}", facts={"values": [u(x) for x in vals]})
@@ -791,16 +1095,16 @@ def _r4(ctx: Ctx, mod, infos: dict[str, FnInfo]) -> None:
         vs = fi.resolve(v, e.stmt) or []
         ok = bool(vs)
         for x in vs:
-            if not (isinstance(x, ast.Subscript) and _self_dict(x.value) == BG_DATA):
+            if _reads_map(x, BG_DATA) is None:
                 ok = False
                 continue
+            xkey = x.slice if isinstance(x, ast.Subscript) else x.args[0]
             at = e.stmt
             if isinstance(v, ast.Name):
                 ds, _ = fi.reaching(v.id, e.stmt)
                 at = ds[0] if len(ds) == 1 else e.stmt
-            kv = fi.resolve(x.slice, at) or []
-            ok = ok and bool(kv) and all(isinstance(k, ast.Subscript) and _self_dict(k.value) == SD_BG
-                                         and u(k.slice) == old for k in kv)
+            kv = fi.resolve(xkey, at) or []
+            ok = ok and bool(kv) and all(_reads_map(k, SD_BG) == old for k in kv)
         ctx.check("R4", ok, mod, q, e.node,
                   "the boundary data of the replaced subdomain's boundary grid must be re-keyed to the new boundary grid",
                   construct=f"store self.{BG_DATA}[{u(e.key)}] = data of old boundary grid", facts={"value": u(v)})
@@ -891,45 +1195,76 @@ def _r5_listing(ctx: Ctx, mod, fi: FnInfo, name: str, d: str) -> None:
         ctx.check("R5", dparent is gparent, mod, q, apps[dvar][0][2],
                   "grid list and data list must be appended in the same block (same filter), else positions disagree",
                   construct=f"lock-step append {glist}/{dlist}")
-    # sort indices
-    sorts = [(s, _sort_call(s.value)) for s in stmts_local(fn)
-             if isinstance(s, ast.Assign) and _sort_call(s.value) is not None]
-    inline = [c for n in walk_local(fn) if (c := _sort_call(n)) is not None]
-    if not inline:
-        sidx = None
     else:
-        sidx = sorts[0][0].targets[0].id if sorts and isinstance(sorts[0][0].targets[0], ast.Name) else None
-        for c in inline:
-            ok = len(c.args) == 1 and u(c.args[0]) == glist
-            ctx.check("R5", ok, mod, q, c, f"the sort must be applied to the collected list `{glist}`",
-                      construct=f"sort call {u(c)}")
-    rets = [s for s in stmts_local(fn) if isinstance(s, ast.Return) and s.value is not None]
+        # data collected afterwards, aligned with the grid list: for g in <glist>: <dlist>.append(self.<d>[g])
+        for lp in [n for n in walk_local(fn) if isinstance(n, ast.For) and u(n.iter) == glist and isinstance(n.target, ast.Name)]:
+            for c in [n for st in lp.body for n in ast.walk(st) if isinstance(n, ast.Call) and call_name(n) == "append"
+                      and isinstance(n.func.value, ast.Name) and len(n.args) == 1]:
+                if _reads_map(c.args[0], d) == lp.target.id and fi.pm[enclosing_stmt(fi.pm, c)] is lp:
+                    dlist = c.func.value.id
+                    ctx.check("R5", True, mod, q, c, "data list filled in the order of the grid list",
+                              construct=f"aligned data list {dlist} from {glist}")
+
+    def sort_arg(c: ast.Call) -> Optional[str]:
+        if len(c.args) == 1 and not c.keywords:
+            return u(c.args[0])
+        if not c.args and len(c.keywords) == 1 and c.keywords[0].arg in ("grids", "subdomains", "interfaces"):
+            return u(c.keywords[0].value)
+        return None
+
+    # names bound to sort results
+    idx_names, sorted_names = set(), set()
+    for st in stmts_local(fn):
+        if isinstance(st, ast.Assign) and len(st.targets) == 1 and isinstance(st.targets[0], ast.Name):
+            c = _sort_call(st.value)
+            if c is not None:
+                (idx_names if c.func.attr == "argsort_grids" else sorted_names).add(st.targets[0].id)
+    for c in [c for n in walk_local(fn) if (c := _sort_call(n)) is not None]:
+        ctx.check("R5", sort_arg(c) == glist, mod, q, c, f"the sort must be applied to the collected list `{glist}`",
+                  construct=f"sort call {u(c)}")
+    rets = [st for st in stmts_local(fn) if isinstance(st, ast.Return) and st.value is not None]
     if not rets:
         raise AnchorError(f"{MD}:{q}: no return")
+
+    def is_idx(e):
+        return (isinstance(e, ast.Name) and e.id in idx_names) or (_sort_call(e) is not None and e.func.attr == "argsort_grids")
+
+    def is_sorted_list(e):
+        return (isinstance(e, ast.Name) and e.id in sorted_names) or (_sort_call(e) is not None and e.func.attr != "argsort_grids")
+
     for r in rets:
         v = r.value
-        uses_sort = (sidx is not None and sidx in names_in(v)) or any(_sort_call(n) for n in ast.walk(v))
+        if isinstance(v, ast.Name) and v.id not in sorted_names:
+            rv = fi.resolve(v, r)
+            if rv and len(rv) == 1:
+                v = rv[0]
+        uses_sort = any(is_idx(n) or is_sorted_list(n) for n in ast.walk(v))
         if not uses_sort:
             ctx.check("R5", False, mod, q, r,
                       f"{name}() returns without going through argsort_grids/sort_*: order would be dict insertion order, "
-                      f"not (descending dim, ascending id)", construct=f"return {u(v)}")
+                      f"not (descending dim, ascending id)", construct=f"return {u(r.value)}")
             continue
-        if _sort_call(v) is not None and v.func.attr != "argsort_grids":
-            ctx.check("R5", True, mod, q, r, "returned through sort_*", construct=f"return {u(v)}")
+        if is_sorted_list(v):
+            ctx.check("R5", True, mod, q, r, "returned through sort_*", construct=f"return {u(r.value)}")
             continue
         if not (isinstance(v, ast.ListComp) and len(v.generators) == 1 and not v.generators[0].ifs
                 and isinstance(v.generators[0].target, ast.Name)):
-            raise Undecided(f"{MD}:{q}: return `{u(v)}` is not a comprehension over the sort indices")
+            raise Undecided(f"{MD}:{q}: return `{u(v)}` is not a comprehension over the sort result")
         g = v.generators[0]
         i = g.target.id
-        it_ok = (isinstance(g.iter, ast.Name) and g.iter.id == sidx) or (
-            _sort_call(g.iter) is not None and g.iter.func.attr == "argsort_grids")
         elts = v.elt.elts if isinstance(v.elt, ast.Tuple) else [v.elt]
-        want = [f"{glist}[{i}]"] + ([f"{dlist}[{i}]"] if len(elts) == 2 and dlist else [])
-        ok = it_ok and [u(x) for x in elts] == want
+        if is_idx(g.iter):
+            first = f"{glist}[{i}]"
+        elif is_sorted_list(g.iter):
+            first = i
+        else:
+            raise Undecided(f"{MD}:{q}: return `{u(v)}` does not iterate the sort result")
+        seconds = {f"self.{d}[{first}]"} | ({f"{dlist}[{i}]"} if dlist and is_idx(g.iter) else set())
+        ok = u(elts[0]) == first and (len(elts) == 1 or (len(elts) == 2 and u(elts[1]) in seconds))
         ctx.check("R5", ok, mod, q, r,
-                  f"returned list must be {glist}[i] (with {dlist}[i] in lock-step) for i over the argsort_grids indices",
-                  construct=f"return {u(v)}", facts={"expected_elements": want})
+                  f"returned list must be the collected grids in sorted order (with their own data dictionaries): first element "
+                  f"`{first}`, data one of {sorted(seconds)}",
+                  construct=f"return {u(v)}", facts={"elements": [u(x) for x in elts]})
 
 
 def _r5_wrappers(ctx: Ctx, mod, infos: dict[str, FnInfo]) -> None:
@@ -945,7 +1280,7 @@ def _r5_wrappers(ctx: Ctx, mod, infos: dict[str, FnInfo]) -> None:
         if len(sorts) != 1 or not isinstance(sorts[0].targets[0], ast.Name):
             raise Undecided(f"{MD}:{q}: expected `inds = self.argsort_grids({param})`")
         inds = sorts[0].targets[0].id
-        arg_ok = [u(a) for a in sorts[0].value.args] == [param]
+        arg_ok = [u(a) for a in sorts[0].value.args] + [u(k.value) for k in sorts[0].value.keywords] == [param]
         rets = [s for s in stmts_local(fn) if isinstance(s, ast.Return) and s.value is not None]
         ok = arg_ok and bool(rets)
         for r in rets:
@@ -983,6 +1318,97 @@ def _strip_array(e: ast.expr) -> ast.expr:
     return e
 
 
+def _r5_argsort_keyed(ctx: Ctx, mod, fi: FnInfo, grids: str, q: str) -> bool:
+    """Alternative whole-list forms:  sorted(range(len(G)), key=lambda i: (-G[i].dim, G[i].id))  and
+    np.lexsort((ids, -dims)) with ids/dims comprehensions over G.  Emits the same four clauses as the loop form."""
+    fn = fi.fn
+    for r in [st for st in stmts_local(fn) if isinstance(st, ast.Return) and st.value is not None]:
+        v = _strip_array(r.value)
+        for _ in range(3):
+            if isinstance(v, ast.Name):
+                rv = fi.resolve(v, r)
+                if not rv or len(rv) != 1 or rv[0] is v:
+                    break
+                v = _strip_array(rv[0])
+        dim_e = id_e = None
+        rev = False
+        var = None
+        if isinstance(v, ast.Call) and call_name(v) == "sorted" and v.args and isinstance(kwarg(v, "key"), ast.Lambda):
+            lam = kwarg(v, "key")
+            if not (u(v.args[0]) in (f"range(len({grids}))",) and len(lam.args.args) == 1 and isinstance(lam.body, ast.Tuple)
+                    and len(lam.body.elts) == 2):
+                raise Undecided(f"{MD}:{q}: sorted(...) form not recognised: {u(v)[:80]}")
+            var = lam.args.args[0].arg
+            item = f"{grids}[{var}]"
+            dim_e, id_e = lam.body.elts
+            rv_ = kwarg(v, "reverse")
+            rev = isinstance(rv_, ast.Constant) and rv_.value is True
+            if rv_ is not None and not isinstance(rv_, ast.Constant):
+                raise Undecided(f"{MD}:{q}: non-literal reverse=")
+        elif isinstance(v, ast.Call) and call_name(v) == "lexsort" and v.args and isinstance(v.args[0], (ast.Tuple, ast.List)) \
+                and len(v.args[0].elts) == 2:
+            def comp_elt(e):
+                neg = False
+                if isinstance(e, ast.UnaryOp) and isinstance(e.op, ast.USub):
+                    neg, e = True, e.operand
+                e = _strip_array(e)
+                if isinstance(e, ast.Name):
+                    rr = fi.resolve(e, r)
+                    e = _strip_array(rr[0]) if rr and len(rr) == 1 else e
+                    if isinstance(e, ast.UnaryOp) and isinstance(e.op, ast.USub):
+                        neg, e = (not neg), _strip_array(e.operand)
+                if not (isinstance(e, (ast.ListComp, ast.GeneratorExp)) and len(e.generators) == 1 and not e.generators[0].ifs
+                        and u(e.generators[0].iter) == grids and isinstance(e.generators[0].target, ast.Name)):
+                    raise Undecided(f"{MD}:{q}: lexsort key `{u(e)[:60]}` is not a comprehension over `{grids}`")
+                body = e.elt
+                if neg:
+                    body = ast.UnaryOp(op=ast.USub(), operand=body)
+                return body, e.generators[0].target.id
+            (id_e, v1), (dim_e, v2) = comp_elt(v.args[0].elts[0]), comp_elt(v.args[0].elts[1])   # last key is primary
+            # bring both to one variable name
+            var = v2
+            if v1 != v2:
+                id_e = subst_name(id_e, v1, v2)
+            item = var
+        else:
+            continue
+
+        def sign_of(e, attr):
+            neg = False
+            while isinstance(e, ast.UnaryOp) and isinstance(e.op, ast.USub):
+                neg, e = (not neg), e.operand
+            if u(e) == f"{item}.{attr}":
+                return -1 if neg else 1
+            return None
+
+        sd_, si_ = sign_of(dim_e, "dim"), sign_of(id_e, "id")
+        if sd_ is None:
+            raise Undecided(f"{MD}:{q}: primary sort key `{u(dim_e)}` is not the grid dimension")
+        eff_d = -sd_ if rev else sd_
+        ctx.check("R5", eff_d == -1, mod, q, dim_e, "dimensions must be ordered descending (primary key -dim)",
+                  construct=f"dimension order key {u(dim_e)}{' reversed' if rev else ''}")
+        ctx.check("R5", True, mod, q, r, "all dimensions are covered (whole-list sort, no dimension filter)",
+                  construct="dimension coverage: whole list")
+        eff_i = None if si_ is None else (-si_ if rev else si_)
+        ctx.check("R5", si_ is not None, mod, q, id_e,
+                  f"the within-dimension sort key must be the grid's creation id (found `{u(id_e)}`): any other key loses the "
+                  f"tie-break by id", construct=f"sort key within a dimension: {u(id_e)}")
+        ctx.check("R5", eff_i in (1, None), mod, q, id_e, "ids must be ordered ascending within a dimension",
+                  construct=f"per-dimension order {u(id_e)}{' reversed' if rev else ''}")
+        ctx.sample({"rule": "R5", "argsort_grids": {"form": call_name(v), "dim_key": u(dim_e), "id_key": u(id_e), "reverse": rev}})
+        return True
+    return False
+
+
+def subst_name(e: ast.expr, old: str, new: str) -> ast.expr:
+    import copy
+
+    class T(ast.NodeTransformer):
+        def visit_Name(self, n):
+            return ast.copy_location(ast.Name(id=new, ctx=n.ctx), n) if n.id == old else n
+    return T().visit(copy.deepcopy(e))
+
+
 def _r5_argsort(ctx: Ctx, mod, fi: FnInfo) -> None:
     fn = fi.fn
     q = f"{CLS}.argsort_grids"
@@ -990,6 +1416,8 @@ def _r5_argsort(ctx: Ctx, mod, fi: FnInfo) -> None:
     if len(grids) != 1:
         raise AnchorError(f"{MD}:{q}: signature changed")
     grids = grids[0]
+    if _r5_argsort_keyed(ctx, mod, fi, grids, q):
+        return
     nests = []
     for outer in [s for s in body_nodoc(fn) if isinstance(s, ast.For)]:
         for inner in [s for s in outer.body if isinstance(s, ast.For)]:
@@ -1325,8 +1753,14 @@ def run(ctx: Ctx) -> None:
     missing = [d for d in DICTS if d not in declared]
     if missing:
         raise AnchorError(f"{MD}:{CLS}.__init__ no longer declares {missing}")
+    meths, inlined = _normalise_methods(meths)
     infos = {n: FnInfo(f) for n, f in meths.items()}
-    mutators = {n for n, fi in infos.items() if fi.mutations() and n != "__init__"}
+    # private helpers whose bodies were inlined at every use are analysed in the context of their callers only
+    context_only = {n for n in inlined if n.startswith("_") and not n.startswith("__")}
+    mutators = {n for n, fi in infos.items() if fi.mutations() and n != "__init__" and n not in context_only}
+    for n in context_only:
+        ctx.note(f"helper {CLS}.{n} is analysed inlined into its callers")
+        infos[n].events = []
     for need in ("add_subdomains", "add_interface", "remove_subdomain", "replace_subdomains_and_interfaces"):
         if need not in mutators:
             raise AnchorError(f"{MD}:{CLS}.{need} missing or no longer mutates the container")
